@@ -77,6 +77,16 @@ Sixth round (f) - changes in the THREADED implementation only that depend on thr
 * **C14-f** (AsyncServer.disconnect() sends DISCONNECT after the handler): C04's disconnect handler optionally tells the namespace that the client left; the differential check compares the order at the departing peer.
 * **C15-f** (RedisManager subscribes once in initialize()): the fake broker can fail only the publishing connection (`publish_hiccup`), so the manager replaces its pubsub object while the listener's connection lives on; a junk message then restarts the listener on the unsubscribed object.
 * **C04-f, C12-f, C13-f**: thread races their properties do not quantify over (see the table). C20 is the property about thread schedules; it explores terminating actions on accepted sessions at manager-access (and, in part, source-line) granularity.
+
+Seventh round (g) - changes that bite only through a rarely used argument, alias or configuration. 9 of 18 missed at first:
+
+* **C04-g / C20-g** (`disconnect(..., ignore_queue=True)` looks the client up without consulting the pending mark): a third of the server-side disconnects in C04 and C20 now use the local-only form.
+* **C06-g / C14-g** (message-queue manager registers the callback before the `ignore_queue` short-cut): C06 runs 30 % of its histories on a message-queue manager (one host on the simulated bus) with `ignore_queue=True` on half of the emits / calls, and sends ACKs bearing the id just below an outstanding one. (On the unchanged tree that id is *not* unknown for a queue-routed emit - the manager keeps the application's callback under it, next to the forwarding entry whose id is on the wire; such ACKs are skipped there, see DESIGN B.2.) The differential check places the `ignore_queue` decisions by content.
+* **C08-g** (default namespace list built from both handler tables without de-duplication): clients with function handlers AND a class-based namespace for the same namespace.
+* **C13-g** (events forwarded to a class-based namespace only if it has an `on_<event>` attribute): class-based namespaces that override `trigger_event()` instead.
+* **C15-g** (bytes are no longer tried as JSON): a valid JSON message handed over as bytes must be applied.
+* **C18-g** (the instrumented emit wrapper drops `ignore_queue`): C18 runs a quarter of its histories on a message-queue manager with a second, plain host whose client sees what goes through the queue; half of the emits are local-only.
+* **C19-g** (`__disconnect_final` registered for `/`): the simple client connects to `/chat` in a third of the runs.
 """
 
 
